@@ -303,34 +303,35 @@ inductive InvReq where
 
 def ceilSat (msat : UInt64) : UInt64 := (msat + 999) / 1000
 
+/-- The amount logic of `RequestMeltQuote`: (isMpp, amountMsat, quoteAmount) or the refusal. -/
+def meltQuotePlan (cfg : Cfg) (msat : UInt64) (mpp : Option UInt64) (isInternal : Bool) : Except E (Bool × UInt64 × UInt64) :=
+  match mpp with
+  | none => .ok (false, 0, ceilSat msat)
+  | some m =>
+    if cfg.mpp then
+      if isInternal then .error (20009, "mpp-internal")
+      else if m ≥ msat then .error (20009, "mpp-not-less")
+      else .ok (true, m, ceilSat m)
+    else .error (20009, "mpp-unsupported")
+
+/-- Quotes that can be settled internally carry no fee reserve. -/
+def reserveFor (internal : Bool) (fee0 : UInt64) : UInt64 := if internal then 0 else fee0
+
 /-- `Mint.RequestMeltQuote`; `msatOf` is what `decodepay` reads from the invoice. -/
 def requestMeltQuote (cx : Cx) (qid : Nat) (inv : InvReq) (msatOf : Nat → UInt64) (unitSat : Bool) (mpp : Option UInt64) : PM MeltQ := do
   failIf (!unitSat) (11005, "unit-not-supported")
   match inv with
   | .bad => throw (20009, "bad-invoice")
   | .inv h =>
-    let msat := msatOf h
-    failIf (msat == 0) (20009, "invoice-no-amount")
-    let invoiceSat := ceilSat msat
-    let isInternal := match ← eff (.getMintQuoteByHash h) with
-      | .ok _ => true
-      | .error _ => false
-    let (isMpp, amountMsat, quoteAmount) ← (match mpp with
-      | none => pure (false, (0 : UInt64), invoiceSat)
-      | some m =>
-        if cx.cfg.mpp then
-          if isInternal then throw (20009, "mpp-internal")
-          else if m ≥ msat then throw (20009, "mpp-not-less")
-          else pure (true, m, ceilSat m)
-        else throw (20009, "mpp-unsupported") : PM (Bool × UInt64 × UInt64))
-    failIf (cx.cfg.maxMelt > 0 && quoteAmount > cx.cfg.maxMelt) eMeltAmountExceeded
-    match ← eff (.getMeltQuoteByReq h) with
-    | .ok _ => throw eMeltQuoteExists
-    | .error _ => pure ()
-    let fee0 ← eff (.lnFeeReserve quoteAmount)
-    let fee := if isInternal then 0 else fee0
-    let q : MeltQ := { id := qid, inv := h, hash := h, amount := quoteAmount, feeReserve := fee, state := .unpaid,
-                       preimage := 0, isMpp := isMpp, amountMsat := amountMsat }
+    failIf (msatOf h == 0) (20009, "invoice-no-amount")
+    let mq ← eff (.getMintQuoteByHash h)
+    let plan ← liftE (meltQuotePlan cx.cfg (msatOf h) mpp mq.toBool)
+    failIf (cx.cfg.maxMelt > 0 && plan.2.2 > cx.cfg.maxMelt) eMeltAmountExceeded
+    let ex ← eff (.getMeltQuoteByReq h)
+    failIf (ex.toBool) eMeltQuoteExists
+    let fee0 ← eff (.lnFeeReserve plan.2.2)
+    let q : MeltQ := { id := qid, inv := h, hash := h, amount := plan.2.2, feeReserve := reserveFor mq.toBool fee0,
+                       state := .unpaid, preimage := 0, isMpp := plan.1, amountMsat := plan.2.1 }
     dbTry (.saveMeltQuote q)
     pure q
 
@@ -480,19 +481,26 @@ structure Balance where
   disabled : Bool
   deriving Repr
 
+/-- A storage call made by a public accessor that returns the raw (non-cashu) error. -/
+def rawTry {β : Type} (e : Eff (DbRes β)) : PM β := do
+  match ← eff e with
+  | .ok v => pure v
+  | .error _ => throw (0, "raw")
+
+/-- `TotalBalance` called from outside a request handler: its error is returned raw. -/
+def rawBalance : PM UInt64 := do
+  match ← ExceptT.lift (totalBalance.run) with
+  | .ok v => pure v
+  | .error _ => throw (0, "raw")
+
+/-- The balance query of the harness: IssuedEcash, RedeemedEcash, TotalBalance, RetrieveMintInfo. -/
 def balanceOp (cx : Cx) : PM Balance := do
-  let issued ← (do match ← eff .getIssued with | .ok v => pure v | .error _ => throw (0, "raw") : PM _)
-  let redeemed ← (do match ← eff .getRedeemed with | .ok v => pure v | .error _ => throw (0, "raw") : PM _)
-  let total ← (do
-    match ← ExceptT.lift (totalBalance.run) with
-    | .ok v => pure v
-    | .error _ => throw (0, "raw") : PM UInt64)
+  let issued ← rawTry .getIssued
+  let redeemed ← rawTry .getRedeemed
+  let total ← rawBalance
   -- RetrieveMintInfo
   let _ ← eff .getSeed
-  let bal ← (do
-    match ← ExceptT.lift (totalBalance.run) with
-    | .ok v => pure v
-    | .error _ => throw (0, "raw") : PM UInt64)
+  let bal ← rawBalance
   pure { issued := issued, redeemed := redeemed, total := total,
          disabled := cx.cfg.maxBalance > 0 && bal ≥ cx.cfg.maxBalance }
 
